@@ -117,3 +117,4 @@ Example C17_nonvacuous :
   /\ forallb decl_wf (chain_fields chain) = true
   /\ field_types_gen Sp604 true (chain_fields chain) = Ok [("a", c); ("b", CAtom "str"); ("iv", c)].
 Proof. vm_compute. repeat split; reflexivity. Qed.
+Print Assumptions C17_nonvacuous.
